@@ -34,7 +34,9 @@ class C16(Prop):
     rule = ("clique equation for tau 2-6 (7 in thorough) with a distinct polynomial variable per neighbour and a polynomial phi; cycle "
             "equation for n 3-10 (12 thorough); Q(n,k) for every n <= 12 (14 thorough) and every k against the model, against the brute-force "
             "count for n <= 5 (6 thorough) and against the recursion without the tree shortcut; QQ(n,k) for n <= 5 (6 thorough); "
-            "number_of_connected_graphs on random substrates, vertex subsets and k against an independent brute force; "
+            "number_of_connected_graphs on random substrates, vertex subsets and k against an independent brute force, plus bridged substrates "
+            "(two triangles / two 4-cliques joined by an edge, two 4-cycles sharing a vertex) for k = 0..3; cycle equation also on an object array "
+            "of exact rationals; "
             "non-trivial = tau >= 3 / n >= 4 / n >= 3 for counts / substrate with a cycle; distinct = distinct case")
     assumptions = ["lru_cache is semantically transparent", "networkx complete_graph / copy / remove_node / is_connected set-level semantics"]
     model_scope = "modelled: clique_equation.py, chordless_cycle_equation.py, number_connected_graphs.py in full (cache excluded)"
